@@ -51,3 +51,52 @@ def small_k(rng, kmax=40):
     if r < 5:
         return rng.choice([9, 10, 11, 12, 13, 17, 18, 19, 20, 21, 25, 26, 27, 29, 30, 31, 32, 33])
     return rng.range(1, kmax)
+
+
+def obj_config(rng, maxf=1200):
+    """a valid (F,T,Z,N,Al) with small blocks: Z > 1, N > 1 and F not a multiple of T are all frequent"""
+    al = rng.choice([1, 1, 2, 4])
+    t = al * rng.range(1, max(1, 16 // al))
+    kt = rng.range(1, max(1, min(60, maxf // t)))
+    z = max(1, min(rng.choice([1, 1, 2, 3, rng.range(1, 4)]), kt))
+    nsub = rng.choice([1, 1, 2, rng.range(1, max(1, t // al))])
+    f = max(1, kt * t - rng.choice([0, 0, 1, rng.below(t)]))
+    if -(-f // t) < z:
+        z = -(-f // t)
+    return f, t, z, nsub, al
+
+
+def block_sizes(f, t, z):
+    kt = -(-f // t)
+    kl, ks = -(-kt // z), kt // z
+    zl = kt - ks * z
+    return [kl] * zl + [ks] * (z - zl)
+
+
+def object_history(rng, f, t, z, extra_choices=(0, 1, 2), drop_frac=None, dup=True, post=True):
+    """steps (kind, sbn, esi): per block a decodable-looking set, blocks interleaved, duplicates, continuation"""
+    ks = block_sizes(f, t, z)
+    per = []
+    for sbn, k in enumerate(ks):
+        frac = rng.choice([0.0, 0.2, 0.5, 1.0]) if drop_frac is None else drop_frac
+        esis = block_esis(rng, k, rng.choice(list(extra_choices)), frac)
+        per.append([(sbn, e) for e in rng.shuffle(esis)])
+    steps = []
+    while any(per):
+        i = rng.choice([j for j, q in enumerate(per) if q])
+        steps.append(per[i].pop(0))
+        if dup and steps and rng.below(6) == 0:
+            steps.append(rng.choice(steps))
+    if post:
+        for _ in range(rng.below(4)):
+            sbn = rng.below(len(ks))
+            steps.append((sbn, rng.choice([rng.below(ks[sbn]), ks[sbn] + rng.below(50)])))
+    return steps
+
+
+def codec_case(rng, cfg, thr, steps, kinds, data):
+    f, t, z, nsub, al = cfg
+    a = [f, t, z, nsub, al, thr, len(steps)]
+    for (sbn, esi), kd in zip(steps, kinds):
+        a += [kd, sbn, esi]
+    return C.Case("codec_hist", a + data)
